@@ -275,9 +275,12 @@ def ratioOf (a b : F64.Bits) : Option F64.Bits :=
 /-- `x <= 0` -/
 def nonPos (x : F64.Bits) : Bool := F64.le x F64.posZero
 
-/-- `stats.GeoMean`: NaN for an empty list or one with an element `<= 0` -/
+/-- `stats.GeoMean`: NaN for an empty list, one with an element `<= 0`, or one with a NaN element
+(`x <= 0` is false for NaN, `log(NaN)` is NaN and stays NaN through the running mean and `exp`;
+decided here because the NaN payload of a quotient is the hardware's, not the model's) -/
 def geoMean (orc : Oracles) (xs : List F64.Bits) : GMAns :=
-  if xs.isEmpty || xs.any nonPos then { val := F64.nan, str := [], pct := [] } else orc.geomean xs
+  if xs.isEmpty || xs.any nonPos || xs.any F64.isNaN then { val := F64.nan, str := [], pct := [] }
+  else orc.geomean xs
 
 structure ColAcc where
   summaries : List F64.Bits := []
